@@ -417,6 +417,67 @@ def check_inner(ctx, r, rid="R0"):
     return True
 
 
+def check_args(ctx, r, rid="R0"):
+    """parse_foreign_key_args_inner: the argument object of `$t(path, {..})` becomes the substitution map - each argument under
+    `var_<name>`, a string argument parsed as a translation string (so it may hold variables), any other literal kept as is"""
+    import re
+    fn = ctx.ast.fn(PV, "parse_foreign_key_args_inner", impl_self="ParsedValue")
+    new = ctx.ast.fn(PV, "new", impl_self="ParsedValue")
+    if fn is None or new is None:
+        r.missing("ParsedValue::parse_foreign_key_args_inner")
+        return False
+    funcs = absint.file_funcs(ctx.ast, PV, impl_self="ParsedValue")
+    MAXV = C("MAX")
+    lits = [("name", C("String", S("Bob"), MAXV)), ("zip", C("String", S("01234"), MAXV)), ("version", C("String", S("1.10"), MAXV)), ("plus", C("String", S("+33"), MAXV)),
+            ("exp", C("String", S("1e3"), MAXV)), ("neg", C("String", S("-7"), MAXV)), (" spaced ", C("String", S(" padded "), MAXV)), ("inner", C("String", S("dear {{ who }}"), MAXV)),
+            ("n", C("Unsigned", I(3))), ("m", C("Signed", I(-2))), ("flag", C("Bool", B(True))), ("ratio", C("Float", A("float:2.5")))]
+
+    def mk():
+        ev = AEval(funcs=funcs, builtins={"unwrap_at": lambda rv, a: rv[2][0] if rv[0] == "ctor" and rv[2] else rv})
+        ev.macros = absint.file_macros(ctx.ast, PV)
+        ev.consts = {"usize::MAX": MAXV}
+        ev.path_builtins = {"Key::new": lambda a: C("Some", CF("Key", name=a[0])) if a[0][0] == "str" and re.match(r"^[A-Za-z_][A-Za-z0-9_]*$", a[0][1]) else C("None"),
+                            "Formatter::from_name_and_args": lambda a: C("Ok", C("Some", C("FormatterNone"))),
+                            "serde_json::from_str": lambda a: C("Ok", L(*[T(S(k), v) for k, v in lits]))}
+        return ev
+    got = mk().run_fn(fn, [S("{..}"), A("key_path"), A("locale"), A("fkp")])
+    if isinstance(got, str):
+        raise Unknown("parse_foreign_key_args_inner: " + got)
+    bad = []
+    if not (got[0] == "ctor" and got[1] == "Ok" and got[2] and got[2][0][0] == "list"):
+        bad.append("returns %s" % absint.fmt(got)[:200])
+    else:
+        have = {x[1][0][1]: x[1][1] for x in got[2][0][1]}
+        for k, lit in lits:
+            name = "var_" + k.strip()
+            if name not in have:
+                bad.append("the argument `%s` is not found under `%s` (keys: %s)" % (k, name, sorted(have)))
+                continue
+            if lit[1] == "String":
+                ref = mk().run_fn(new, [lit[2][0], A("key_path"), A("locale"), A("fkp")])
+                want = ref[2][0] if not isinstance(ref, str) and ref[0] == "ctor" and ref[1] == "Ok" else None
+                if want is None:
+                    raise Unknown("ParsedValue::new on an argument: %s" % (ref if isinstance(ref, str) else absint.fmt(ref)))
+            else:
+                want = C("Literal", lit)
+            if have[name] != want:
+                bad.append("the argument `%s` = %s becomes %s, expected %s (the supplied value itself)" % (k, absint.fmt(lit), absint.fmt(have[name])[:120], absint.fmt(want)[:120]))
+    # an argument object that is not valid JSON is an error
+    ev = mk()
+    ev.path_builtins["serde_json::from_str"] = lambda a: C("Err", A("json-error"))
+    g2 = ev.run_fn(fn, [S("{oops"), A("key_path"), A("locale"), A("fkp")])
+    if isinstance(g2, str):
+        raise Unknown("parse_foreign_key_args_inner (invalid JSON): " + g2)
+    if err_kind(g2) != "InvalidForeignKeyArgs":
+        bad.append("an invalid argument object gives %s, expected Err(InvalidForeignKeyArgs)" % absint.fmt(g2)[:120])
+    if bad:
+        r.viol("%s:parse_foreign_key_args_inner" % rid, "; ".join(bad[:3]), file=fn.file, line=fn.line)
+    else:
+        r.inst("ParsedValue::parse_foreign_key_args_inner", "%d arguments (plain text, text that looks like a number: leading zeros, sign, decimals, exponent; text with a variable; padded names; numbers, booleans): "
+               "each is found under var_<trimmed name> with the supplied value itself (strings parsed as translation strings, other literals kept)" % len(lits))
+    return True
+
+
 def check_traversal(ctx, r, rid="R0"):
     """resolve_foreign_key reaches every reference cell below a value exactly once; a busy cell is a cycle"""
     fn = ctx.ast.fn(PV, "resolve_foreign_key", impl_self="ParsedValue")
